@@ -125,4 +125,19 @@ theorem source_state_is_the_models :
 
 end SurfaceState
 
+section SurfaceConv
+open Orx.GenThms.Surface Orx.Gen
+
+/-- the `From` conversions are `new`: an iterator built through them starts at position 0 over the very source it was given -/
+theorem source_conversions_are_the_constructors :
+    fnsOf "frombody" "ConIterOfSlice" = [["Self::new(slice)"]] ∧ fnsOf "frombody" "ConIterOfVec" = [["Self::new(vec)"]] ∧
+    fnsOf "frombody" "ConIterOfArray" = [["Self::new(array)"]] ∧ fnsOf "frombody" "ConIterOfRange" = [["Self::new(range)"]] ∧
+    fnsOf "frombody" "ConIterOfIter" = [["Self::new(iter)"]] ∧
+    fnsOf "frombody" "ConIterValues" = [["Self{con_iter}"]] ∧ fnsOf "frombody" "ConIterIdsAndValues" = [["Self{con_iter}"]] ∧
+    sameSet (implsOf "From") ["ConIterOfSlice", "ConIterOfVec", "ConIterOfArray", "ConIterOfRange", "ConIterOfIter", "ConIterValues",
+      "ConIterIdsAndValues"] = true :=
+  Orx.GenThms.Surface.the_conversions
+
+end SurfaceConv
+
 end Orx.Props.C19
